@@ -130,6 +130,16 @@ def run(tier: str) -> int:
     return chk.finish()
 
 
+def selftest(tier: str) -> int:
+    """In-process mutation probes (monkeypatched library, never /repo): each must be killed."""
+    from . import boot
+    from .core import run_probes
+    boot.setup()
+    allp = djc.standard_probes()
+    probes = [(n, allp[n]) for n in ['inject-returns-outermost-provider', 'only/isolated-does-not-isolate']]
+    return run_probes(PID, probes, lambda chk: body(chk, mc_nodes=2, n_random=300, n_hist=4, hist_len=10, deep=3, refcount=False))
+
+
 def replay(path: str) -> int:
     from . import boot
     boot.setup()
